@@ -98,7 +98,7 @@ PROPS = {
         'needs_exp': True,
     },
     'C02': {
-        'rules': [rule('G0'), rule('G5'), rule('G6'), rule('G7', drop=LOOKAHEAD), rule('G8'), rule('G1'), rule('G3'), rule('T1'), rule('T2'), rule('G17', keep=['string-literal:']), rule('G18', keep=['escaped-identifier:']), rule('G12', keep=['lookahead-spans-tokens']), rule('G14', keep=['digit-run-continuation']), rule('S1', keep=['VERSION', 'DIRECTIVE'])],
+        'rules': [rule('G0'), rule('G5'), rule('G6'), rule('G7', drop=LOOKAHEAD), rule('G8'), rule('G1'), rule('G3'), rule('T1'), rule('T2'), rule('G17', keep=['string-literal:']), rule('G18', keep=['escaped-identifier:']), rule('G12', keep=['lookahead-spans-tokens', 'trivia-inside-compound-token']), rule('G14', keep=['digit-run-continuation']), rule('S1', keep=['VERSION', 'DIRECTIVE'])],
         'explanation': 'Necessary conditions for "accepted and classified under their production", anchored in the three stated '
                        'mechanisms. One parser per production, every production addressable: every parser is reachable from an '
                        'entry and every CST struct / enum variant (the repository\'s own copy of Annex A: 936 structs, 1048 '
@@ -185,7 +185,7 @@ PROPS = {
         'technique': 'named-parameter threading lint + must-adopt / control-dependence checks',
     },
     'C14': {
-        'rules': [rule('G10'), rule('W3'), rule('W1'), rule('G0'), rule('G14'), rule('G21'), rule('X20'), rule('G22'), rule('G17', keep=['string-literal:']), rule('W6'), rule('X1', keep=['unscanned-exit'])],
+        'rules': [rule('G10'), rule('W3'), rule('W1'), rule('G0'), rule('G14'), rule('G21'), rule('X20'), rule('G22'), rule('G17', keep=['string-literal:']), rule('W6'), rule('X1', keep=['unscanned-exit']), rule('K2')],
         'explanation': 'Strict entries cannot succeed before end of input; bracket helpers demand both delimiters; no closing delimiter or '
                        'block-closing keyword is optional anywhere in the grammar (G10, G0); failures are mapped to Error::Parse '
                        'through the origin map of the parsed text and to Error::Preprocess with the path being read (W3), '
@@ -381,7 +381,7 @@ PROPS = {
         'technique': 'named-parameter threading lint + per-handler emission classes under the flag',
     },
     'C05': {
-        'rules': [rule('X13'), rule('X18'), rule('X19'), rule('G16'), rule('G17', keep=['argument-string:']), rule('G6', keep=MACRO_LEXERS), rule('X14', keep=['define-table-seed']), rule('P3'), rule('X9'), rule('X10'), rule('X4', drop=['strip-', 'double-emission'])],
+        'rules': [rule('X13'), rule('X18'), rule('X19'), rule('G16'), rule('G17', keep=['argument-string:']), rule('G6', keep=MACRO_LEXERS), rule('X14', keep=['define-table-seed']), rule('X1', keep=['early-exit-before-copy', 'text-assembled']), rule('P3'), rule('X9'), rule('X10'), rule('X4', drop=['strip-', 'double-emission'])],
         'explanation': 'NARROW claim: the structural clauses of macro expansion, the run-splitting of the macro body, the substitution loop with its '
                        'rewrite table and the nesting discipline of the argument lexer are decided; the expanded text as a value is not. '
                        'Misuse is reported by name: DefineNotFound carries the name that was used, DefineArgNotFound the formal that got '
